@@ -196,12 +196,47 @@ def checkT2Poison (c : T2Case) (id : String) (es : List T2Ev) : Option String :=
     | none => pure ()
   return none
 
+/-- C09 on a T2 transcript: while a thread is inside a session on a *retrying* collection, every
+blocking acquisition it is granted finds it holding nothing (it never waited while holding). -/
+def checkT2Retry (c : T2Case) (id : String) (es : List T2Ev) : Option String := Id.run do
+  let C : Ctx := { W := { addr := fun x => c.addr.getD x 0 }, colls := c.colls }
+  let nt := c.progs.length
+  let rec isRetryTop : Shape → Bool
+    | .retry _ => true
+    | .poisonable _ s => isRetryTop s
+    | _ => false
+  let mut idx : List Nat := List.replicate nt 0
+  let mut held : List (Nat × Nat) := []          -- (thread, lock), with multiplicity
+  for e in es do
+    let t := e.tid
+    let st := (c.progs.getD t []).getD (idx.getD t 0) .get
+    match rawOf e.tok with
+    | some (k, x, true, _) =>
+      if k == "LX" || k == "LS" then
+        match st with
+        | .ses ses =>
+          if isRetryTop (C.shape ses.coll) && held.any (·.1 == t) then
+            return some s!"{id}: thread {t} was granted the blocking acquisition of {x} of a retrying collection while holding {(held.filter (·.1 == t)).map (·.2)}"
+        | _ => pure ()
+      if k == "LX" || k == "LS" || k == "TX" || k == "TS" then held := (t, x) :: held
+      else held := held.erase (t, x)
+    | _ => pure ()
+    match (e.tok.drop 1).toString.toNat? with
+    | some k => if e.tok.startsWith "m" && 10 ≤ k && k < 20 then idx := idx.set t (idx.getD t 0 + 1)
+    | none => pure ()
+  return none
+
 def checkT2 (prop : String) (caseLine : String) (line : String) : Option String :=
   match line.splitOn ";" with
   | id :: evs :: term :: _ =>
     let es := parseT2Evs evs
     if prop == "C01" then
       if term == "deadlock" then some s!"{id}: the real threads deadlocked under this schedule" else none
+    else if prop == "C09" then
+      if term == "deadlock" then some s!"{id}: the real threads deadlocked under this schedule" else
+      match parseT2 caseLine with
+      | some c => checkT2Retry c id es
+      | none => some s!"unparsable T2 case {caseLine}"
     else if prop == "C10" then
       match parseT2 caseLine with
       | some c => checkT2Poison c id es
